@@ -24,23 +24,28 @@ import (
 // R-ELEMCOUNT
 //
 // (a) A value that comes out of baseObject._defineOwnProperty may be a *valueProperty. Every
-//     store of such a value into the element storage of an array object X (X.values[i] = v,
-//     X.items[i].value = v, X.items[i] = sparseArrayItem{value: v}, X.add(i, v)) is accompanied, in
-//     the same function, by an adjustment of propValueCount *of the same object X* - in particular
-//     when X is the object the array has just been converted into.
+//
+//	store of such a value into the element storage of an array object X (X.values[i] = v,
+//	X.items[i].value = v, X.items[i] = sparseArrayItem{value: v}, X.add(i, v)) is accompanied, in
+//	the same function, by an adjustment of propValueCount *of the same object X* - in particular
+//	when X is the object the array has just been converted into.
+//
 // (b) For the compact storage the same holds for objCount, and when the slot that is written
-//     was read before (the `existing` value handed to _defineOwnProperty), the increment of
-//     objCount is conditional on that slot having been empty.
+//
+//	was read before (the `existing` value handed to _defineOwnProperty), the increment of
+//	objCount is conditional on that slot having been empty.
+//
 // (c) A storage conversion (an arrayObject built inside a sparseArrayObject method and vice versa)
-//     carries propValueCount over.
+//
+//	carries propValueCount over.
 var ElemCount = &core.Rule{Name: "R-ELEMCOUNT", Run: runElemCount,
 	Doc: "a property value (possibly a *valueProperty) stored into an array's element storage is counted in propValueCount/objCount of the object that receives it, objCount grows only for a slot that was empty, and storage conversions carry propValueCount over"}
 
 type arrFields struct {
 	values, items, itemValue, objCount, propValueCount, length *types.Var
-	sparsePVC                                                *types.Var
-	arrT, sparseT                                            *types.Named
-	add, define                                              *ssa.Function
+	sparsePVC                                                  *types.Var
+	arrT, sparseT                                              *types.Named
+	add, define                                                *ssa.Function
 }
 
 func loadArrFields(p *core.Prog) (*arrFields, error) {
